@@ -9,9 +9,12 @@ func init() {
 func suiteC14(c *Ctx) {
 	g := c.gen()
 	var steps []Step
+	nflush := 0
 	flush := func(label string) {
 		if len(steps) > 0 {
-			c.emit(Case{label, steps, false})
+			// every other batch with all byte slices handed in or out written over afterwards
+			nflush++
+			c.emit(Case{label, steps, nflush%2 == 0 || label == "lengths"})
 			steps = nil
 		}
 	}
